@@ -11,6 +11,7 @@ from engine.th import TH
 from spec.seq import N, le
 
 PROPERTY = "C20"
+HISTORY_LEMMAS = ['counter_history']  # lemmas/History.lean: one-cycle contracts => history-level statement (Lean 4)
 LEVEL = "proof"
 ASSUMPTIONS = [
     "max_count swept as listed; unbounded in inputs and history length",
